@@ -26,7 +26,8 @@ import (
 )
 
 type params struct {
-	NumReqs int `json:"num_reqs"`
+	NumReqs int  `json:"num_reqs"`
+	Xlat    bool `json:"xlat"` // translation stack (address translator, TLB, MMU) instead of a cache hierarchy
 }
 
 func main() {
@@ -49,7 +50,7 @@ func main() {
 			}
 			var bs []kit.Batch
 			for i := 0; i < nb; i++ {
-				bs = append(bs, kit.Batch{Name: fmt.Sprintf("trace%d", i), Seed: seed*6689 + int64(i), N: n, Params: kit.MkParams(params{NumReqs: nreq})})
+				bs = append(bs, kit.Batch{Name: fmt.Sprintf("trace%d", i), Seed: seed*6689 + int64(i), N: n, Params: kit.MkParams(params{NumReqs: nreq, Xlat: i%4 == 3})})
 			}
 			return bs
 		},
@@ -156,10 +157,18 @@ func run(b kit.Batch, r *kit.R) {
 func oneCase(c *kit.Case, p params) {
 	r := c.R
 	rng := c.Rng
-	cfg := sim.RandomStackCfg(rng, sim.GenOpts{NumReqs: p.NumReqs, AllowDRAM: rng.Intn(3) == 0, AllowBanked: true, MaxDrivers: 3})
-	cfg.WithCtrl = true
-	cfg.Tracing = rng.Intn(2) == 0
-	nUnits := len(cfg.Levels) + max(cfg.Mem.Count, 1)
+	var cfg sim.StackCfg
+	var xc *xlatCfg
+	nUnits := 5
+	if p.Xlat {
+		xc = randomXlatCfg(rng, p.NumReqs)
+		cfg = xc.stackCfg()
+	} else {
+		cfg = sim.RandomStackCfg(rng, sim.GenOpts{NumReqs: p.NumReqs, AllowDRAM: rng.Intn(3) == 0, AllowBanked: true, MaxDrivers: 3})
+		cfg.WithCtrl = true
+		cfg.Tracing = rng.Intn(2) == 0
+		nUnits = len(cfg.Levels) + max(cfg.Mem.Count, 1)
+	}
 	// control history
 	var eps []episode
 	nEp := []int{0, 1, 1, 2, 2, 3}[rng.Intn(6)]
@@ -174,9 +183,15 @@ func oneCase(c *kit.Case, p params) {
 		eps = append(eps, e)
 	}
 	desc := map[string]any{"cfg": cfg, "history": eps}
-	c.Desc(desc)
-
-	s := sim.BuildStack(cfg, r.WorkDir)
+	var s *sim.Stack
+	if p.Xlat {
+		desc = map[string]any{"translation_stack": xc, "history": eps}
+		c.Desc(desc)
+		s = buildXlat(xc, r.WorkDir)
+	} else {
+		c.Desc(desc)
+		s = sim.BuildStack(cfg, r.WorkDir)
+	}
 	defer s.Close()
 	x := &runner{c: c, s: s, desc: desc}
 	x.units = append(x.units, s.Levels...)
@@ -200,8 +215,9 @@ func oneCase(c *kit.Case, p params) {
 	}
 
 	judged := 0
+	quiescent := true // false: the stream stalled, so open tasks are expected and not judged
 	judge := func(final bool, phase string) bool {
-		a := analyse(st.recs, true, kindOf)
+		a := analyse(st.recs, quiescent, kindOf)
 		if path := os.Getenv("C32_DUMP"); path != "" { // debugging aid for replays
 			var sb strings.Builder
 			for i, q := range st.recs {
@@ -231,13 +247,14 @@ func oneCase(c *kit.Case, p params) {
 	total := 0
 	next := 0 // next episode
 	trigger := false
+	armed := true // an episode may start only while traffic is running, not during the later steps of the previous one
 	inflightAtTrigger := 0
 	firstN := 0
 	for _, d := range s.Drivers {
 		d.OnRsp = func(sim.RspEvent) {
 			total++
-			if next < len(eps) && total == eps[next].At && !trigger {
-				trigger = true
+			if armed && next < len(eps) && total >= eps[next].At {
+				trigger, armed = true, false
 				for _, q := range s.Drivers {
 					q.State.Halt = true
 					inflightAtTrigger += len(q.State.Inflight)
@@ -313,6 +330,7 @@ func oneCase(c *kit.Case, p params) {
 				d.State.Inflight = nil // cancelled by the Reset
 			}
 		}
+		armed = true
 		for _, d := range s.Drivers {
 			d.State.Halt = false
 			d.TickLater()
@@ -330,7 +348,9 @@ func oneCase(c *kit.Case, p params) {
 	}
 	if !done {
 		// not this property's subject (C16/C18 judge liveness); the open tasks of a stalled hierarchy are not a tracing defect
-		r.Count("runs_that_did_not_finish_their_stream(not_judged)", 1)
+		r.Count("runs_that_did_not_finish_their_stream(open_tasks_not_judged)", 1)
+		quiescent = false
+		judge(true, "end of run (stream not finished)")
 		return
 	}
 	good := judge(true, "end of run")
@@ -342,6 +362,9 @@ func oneCase(c *kit.Case, p params) {
 		kinds = append(kinds, l.Kind)
 	}
 	shape := strings.Join(kinds, ">") + ">" + cfg.Mem.Kind
+	if p.Xlat {
+		shape = "at>(tlb>mmu)+ideal"
+	}
 	r.Distinct("stack_shapes", shape)
 	var hk []string
 	for _, e := range eps {
@@ -354,6 +377,6 @@ func oneCase(c *kit.Case, p params) {
 		j, _ := json.Marshal(desc)
 		c.Nontrivial(string(j))
 	}
-	c.Sample(map[string]any{"shape": shape, "history": eps, "cfg": cfg, "tasks": a.Counts["tasks_started"], "milestones": a.Counts["milestones"], "tags": a.Counts["tags"],
+	c.Sample(map[string]any{"shape": shape, "history": eps, "case": desc, "tasks": a.Counts["tasks_started"], "milestones": a.Counts["milestones"], "tags": a.Counts["tags"],
 		"ended_by_reset_teardown": a.Counts["tasks_ended_by_reset_teardown"], "end_time_ps": s.Engine.CurrentTime()})
 }
